@@ -97,27 +97,18 @@ impl Number {
     /// converting the resulting BigRational into the most appropriate
     /// Number type.
     pub fn parse_rational(text: &str, radix: u32) -> Option<Number> {
-        match Rational32::from_str_radix(text, radix) {
-            Ok(num) => {
-                if num.is_integer() {
-                    Some(Number::from(num.to_i64().unwrap()))
-                } else {
-                    Some(num.into())
-                }
-            }
-            Err(_) => match BigRational::from_str_radix(text, radix) {
-                Ok(num) => {
-                    if num.is_integer() {
-                        match num.to_i64() {
-                            Some(num) => Some(num.into()),
-                            None => Some(num.to_integer().into()),
-                        }
-                    } else {
-                        Some(num.to_f64().unwrap_or(f64::NAN).into())
-                    }
-                }
-                Err(_) => None,
-            },
+        // Rational32::from_str_radix reduces in 32 bits and overflows on spellings such as
+        // -2147483648/-1: read the ratio in arbitrary precision and narrow the reduced result.
+        let num = BigRational::from_str_radix(text, radix).ok()?;
+        if num.is_integer() {
+            return match num.to_i64() {
+                Some(num) => Some(num.into()),
+                None => Some(num.to_integer().into()),
+            };
+        }
+        match (num.numer().to_i32(), num.denom().to_i32()) {
+            (Some(numer), Some(denom)) => Some(Rational32::new_raw(numer, denom).into()),
+            _ => Some(num.to_f64().unwrap_or(f64::NAN).into()),
         }
     }
 
